@@ -316,7 +316,7 @@ Theorem balance_never_negative cfg h :
   clients_honest cfg world0 h [] ->
   let w := reach cfg h in
   vR w + vP w <= vS w /\
-  (vS w < two64 -> exists w', run total_balance no_fault w = (w', Done (Ok (vS w - vR w))) /\ 0 <= vS w - vR w).
+  (vS w < two63 -> exists w', run total_balance no_fault w = (w', Done (Ok (vS w - vR w))) /\ 0 <= vS w - vR w).
 Proof.
   intros Hh w. pose proof (btrace_bi cfg h world0 [] Hh BI0) as [Hg Hb].
   rewrite btrace_world in Hg, Hb. fold (reach cfg h) in Hg, Hb. fold w in Hg, Hb.
